@@ -631,19 +631,21 @@ func specPreorderAll(roots []*Node, i int) []*Node {
 //@   modifies Node.brnch.value, Node.brnch.path, cbTrace, cbFailed, cbLastErr
 
 //@ contract fromRootOutput
-//@   modifies Node.brnch.value, Node.brnch.path, out, wfail, defaultGrowSpreaderSimple.w, defaultSpreaderSimple.w, counter.n, encTrace, encoders
+//@   modifies Node.brnch.value, Node.brnch.path, out, wfail, defaultGrowSpreaderSimple.w, defaultSpreaderSimple.w, counter.n, encTrace, encoders, lastConfig
+//@   ghostset lastConfig := cfg
 //@   ensures nilnode [C03]: root == nil ==> result == ErrNilNode && out == old(out) && wfail == old(wfail)
 //@   ensures notroot [C03]: root != nil && root.hierarchy != 1 ==> result == ErrNotRoot && out == old(out) && wfail == old(wfail)
-//@   ensures render [C03,C13,C14,C12]: root != nil && root.hierarchy == 1 ==> (exists c *config :: {c.massive} fresh(c) && (!c.massive && c.encode == encodeDefault ==> (result != nil ==> wfail) && (result == nil ==> wfail == old(wfail) && out[w] == old(out[w]) ++ specRender(c.lastNodeFormat, c.intermedialNodeFormat, root))))
+//@   ensures render [C03,C13,C14,C12]: root != nil && root.hierarchy == 1 ==> (fresh(lastConfig) && (!lastConfig.massive && lastConfig.encode == encodeDefault ==> (result != nil ==> wfail) && (result == nil ==> wfail == old(wfail) && out[w] == old(out[w]) ++ specRender(lastConfig.lastNodeFormat, lastConfig.intermedialNodeFormat, root))))
 //@ applies fromRootOutput to gtree.OutputFromRoot, gtree.OutputProgrammably
 
 //@ contract fromRootWalk
 //@   param callback follows walkCallback
 //@   requires live: !cbFailed
-//@   modifies Node.brnch.value, Node.brnch.path, cbTrace, cbFailed, cbLastErr, counter.n
+//@   modifies Node.brnch.value, Node.brnch.path, cbTrace, cbFailed, cbLastErr, counter.n, lastConfig
+//@   ghostset lastConfig := cfg
 //@   ensures nilnode [C03]: root == nil ==> result == ErrNilNode && cbTrace == old(cbTrace)
 //@   ensures notroot [C03]: root != nil && root.hierarchy != 1 ==> result == ErrNotRoot && cbTrace == old(cbTrace)
-//@   ensures walk [C03,C05,C13,C12]: root != nil && root.hierarchy == 1 ==> (exists c *config :: {c.massive} fresh(c) && (!c.massive ==> (result == nil ==> !cbFailed && cbTrace == old(cbTrace) ++ specPreorder(root)) && (cbFailed ==> result == cbLastErr && result != nil) && (c.encode == encodeDefault && (result == nil || cbFailed) ==> grown(c.lastNodeFormat, c.intermedialNodeFormat, root))))
+//@   ensures walk [C03,C05,C13,C12]: root != nil && root.hierarchy == 1 ==> (fresh(lastConfig) && (!lastConfig.massive ==> (result == nil ==> !cbFailed && cbTrace == old(cbTrace) ++ specPreorder(root)) && (cbFailed ==> result == cbLastErr && result != nil) && (lastConfig.encode == encodeDefault && (result == nil || cbFailed) ==> grown(lastConfig.lastNodeFormat, lastConfig.intermedialNodeFormat, root))))
 //@ applies fromRootWalk to gtree.WalkFromRoot, gtree.WalkProgrammably
 
 // ---------------------------------------------------------------------------------------------
@@ -702,11 +704,12 @@ func allRootsT(rs []*Node) bool { return true }
 // three iterator closures (iter.Pull2 coroutines) is not covered by this contract (marked partial; see DESIGN.md).
 //@ func gtree.treeSimple.output
 //@   requires ok: simpleTreeOK(t, cfg)
-//@   modifies Node.children, Node.parent, Node.brnch.value, Node.brnch.path, list.List.view, list.Element.backOf, counter.n, bufio.Scanner.pos, bufio.Scanner.failed, markdown.Parser.isSharpRoot, markdown.Parser.spaces, markdown.Parser.sep, out, wfail, defaultSpreaderSimple.w, encTrace, encoders
+//@   modifies Node.children, Node.parent, Node.brnch.value, Node.brnch.path, list.List.view, list.Element.backOf, counter.n, bufio.Scanner.pos, bufio.Scanner.failed, markdown.Parser.isSharpRoot, markdown.Parser.spaces, markdown.Parser.sep, out, wfail, defaultSpreaderSimple.w, encTrace, encoders, lastForest
+//@   ghostset lastForest := roots
 //@   use lemma lemmaRawAllIsRenderAll
 //@   ensures accepted [C14]: cfg.encode == encodeDefault && result == nil ==> old(wfail) || !wfail
-//@   ensures render [C01]: cfg.noUseIterOfSimpleOutput && cfg.encode == encodeDefault && !cfg.dryrun && result == nil ==> (exists rs []*Node :: {witness(roots)} allRoots(rs) && out[w] == old(out[w]) ++ specRenderAll(cfg.lastNodeFormat, cfg.intermedialNodeFormat, rs, len(rs)))
-//@   ensures report [C09]: cfg.noUseIterOfSimpleOutput && cfg.encode == encodeDefault && cfg.dryrun && result == nil ==> (exists rs []*Node :: {witness(roots)} allRoots(rs) && (forall k int :: {rs[k]} 0 <= k && k < len(rs) ==> validated(rs[k])) && out[w] == old(out[w]) ++ specDryReport(as(t.spreader, colorizeSpreaderSimple).fileColor, as(t.spreader, colorizeSpreaderSimple).dirColor, cfg.fileExtensions, rs, len(rs)))
+//@   ensures render [C01]: cfg.noUseIterOfSimpleOutput && cfg.encode == encodeDefault && !cfg.dryrun && result == nil ==> (allRoots(lastForest) && out[w] == old(out[w]) ++ specRenderAll(cfg.lastNodeFormat, cfg.intermedialNodeFormat, lastForest, len(lastForest)))
+//@   ensures report [C09]: cfg.noUseIterOfSimpleOutput && cfg.encode == encodeDefault && cfg.dryrun && result == nil ==> (allRoots(lastForest) && (forall k int :: {lastForest[k]} 0 <= k && k < len(lastForest) ==> validated(lastForest[k])) && out[w] == old(out[w]) ++ specDryReport(as(t.spreader, colorizeSpreaderSimple).fileColor, as(t.spreader, colorizeSpreaderSimple).dirColor, cfg.fileExtensions, lastForest, len(lastForest)))
 //@   ensures dryfs [C09]: fsOps == old(fsOps) && fsFailed == old(fsFailed)
 //@   ensures sticky [C14]: cfg.noUseIterOfSimpleOutput && old(wfail) ==> wfail
 
@@ -714,8 +717,9 @@ func allRootsT(rs []*Node) bool { return true }
 //@   param callback follows walkCallback
 //@   requires ok: simpleTreeOK(t, cfg)
 //@   requires live: !cbFailed
-//@   modifies Node.children, Node.parent, Node.brnch.value, Node.brnch.path, list.List.view, list.Element.backOf, counter.n, bufio.Scanner.pos, bufio.Scanner.failed, markdown.Parser.isSharpRoot, markdown.Parser.spaces, markdown.Parser.sep, cbTrace, cbFailed, cbLastErr
-//@   ensures all [C05]: result == nil ==> !cbFailed && (exists rs []*Node :: {witness(roots)} allRoots(rs) && cbTrace == old(cbTrace) ++ specPreorderAll(rs, len(rs)) && (cfg.encode == encodeDefault ==> (forall k int :: {rs[k]} 0 <= k && k < len(rs) ==> grown(cfg.lastNodeFormat, cfg.intermedialNodeFormat, rs[k]))))
+//@   modifies Node.children, Node.parent, Node.brnch.value, Node.brnch.path, list.List.view, list.Element.backOf, counter.n, bufio.Scanner.pos, bufio.Scanner.failed, markdown.Parser.isSharpRoot, markdown.Parser.spaces, markdown.Parser.sep, cbTrace, cbFailed, cbLastErr, lastForest
+//@   ghostset lastForest := roots
+//@   ensures all [C05]: result == nil ==> !cbFailed && (allRoots(lastForest) && cbTrace == old(cbTrace) ++ specPreorderAll(lastForest, len(lastForest)) && (cfg.encode == encodeDefault ==> (forall k int :: {lastForest[k]} 0 <= k && k < len(lastForest) ==> grown(cfg.lastNodeFormat, cfg.intermedialNodeFormat, lastForest[k]))))
 //@   ensures stop [C05]: cbFailed ==> result == cbLastErr && result != nil
 
 //@ lemma gtree.lemmaRawAllIsRenderAll
@@ -733,6 +737,10 @@ func lemmaRawAllIsRenderAll(last, mid branchFormat, roots []*Node, i int) {
 
 // Ghost bookkeeping of library calls, for the CLI contracts (C16): libWriter is the writer the last Output call was
 // given, libFailed that some library call returned an error, libCalls the number of library calls.
+// lastForest / lastConfig publish the forest a From-Markdown route generated and the configuration an entry point
+// built (they stand where the postconditions of routes and entries would otherwise need existential quantifiers).
+//@ ghost var lastForest []*Node
+//@ ghost var lastConfig *config
 //@ ghost var libWriter any
 //@ ghost var libFailed bool
 //@ ghost var libCalls int
@@ -742,25 +750,27 @@ func lemmaRawAllIsRenderAll(last, mid branchFormat, roots []*Node, i int) {
 
 //@ func gtree.treePipeline.output
 //@   assumed
-//@   modifies Node.children, Node.parent, Node.brnch.value, Node.brnch.path, list.List.view, list.Element.backOf, counter.n, bufio.Scanner.pos, bufio.Scanner.failed, markdown.Parser.isSharpRoot, markdown.Parser.spaces, markdown.Parser.sep, out, wfail, defaultSpreaderSimple.w, encTrace, encoders
+//@   modifies Node.children, Node.parent, Node.brnch.value, Node.brnch.path, list.List.view, list.Element.backOf, counter.n, bufio.Scanner.pos, bufio.Scanner.failed, markdown.Parser.isSharpRoot, markdown.Parser.spaces, markdown.Parser.sep, out, wfail, defaultSpreaderSimple.w, encTrace, encoders, lastForest
 //@ func gtree.treePipeline.walk
 //@   assumed
-//@   modifies Node.children, Node.parent, Node.brnch.value, Node.brnch.path, list.List.view, list.Element.backOf, counter.n, bufio.Scanner.pos, bufio.Scanner.failed, markdown.Parser.isSharpRoot, markdown.Parser.spaces, markdown.Parser.sep, cbTrace, cbFailed, cbLastErr
+//@   modifies Node.children, Node.parent, Node.brnch.value, Node.brnch.path, list.List.view, list.Element.backOf, counter.n, bufio.Scanner.pos, bufio.Scanner.failed, markdown.Parser.isSharpRoot, markdown.Parser.spaces, markdown.Parser.sep, cbTrace, cbFailed, cbLastErr, lastForest
 
 //@ contract fromMarkdownOutput
-//@   modifies Node.children, Node.parent, Node.brnch.value, Node.brnch.path, list.List.view, list.Element.backOf, counter.n, bufio.Scanner.pos, bufio.Scanner.failed, markdown.Parser.isSharpRoot, markdown.Parser.spaces, markdown.Parser.sep, out, wfail, defaultSpreaderSimple.w, encTrace, encoders, libWriter, libFailed, libCalls
+//@   modifies Node.children, Node.parent, Node.brnch.value, Node.brnch.path, list.List.view, list.Element.backOf, counter.n, bufio.Scanner.pos, bufio.Scanner.failed, markdown.Parser.isSharpRoot, markdown.Parser.spaces, markdown.Parser.sep, out, wfail, defaultSpreaderSimple.w, encTrace, encoders, libWriter, libFailed, libCalls, lastConfig, lastForest
+//@   ghostset lastConfig := cfg
 //@   ghostset libWriter := w
 //@   ghostset libFailed := old(libFailed) || result != nil
 //@   ghostset libCalls := old(libCalls) + 1
-//@   ensures render [C01,C03,C12,C14,C17]: exists c *config :: {c.massive} fresh(c) && (!c.massive && c.encode == encodeDefault && !c.dryrun && result == nil ==> (old(wfail) || !wfail) && (c.noUseIterOfSimpleOutput ==> (exists rs []*Node :: allRoots(rs) && out[w] == old(out[w]) ++ specRenderAll(c.lastNodeFormat, c.intermedialNodeFormat, rs, len(rs)))))
+//@   ensures render [C01,C03,C12,C14,C17]: fresh(lastConfig) && (!lastConfig.massive && lastConfig.encode == encodeDefault && !lastConfig.dryrun && result == nil ==> (old(wfail) || !wfail) && (lastConfig.noUseIterOfSimpleOutput ==> (allRoots(lastForest) && out[w] == old(out[w]) ++ specRenderAll(lastConfig.lastNodeFormat, lastConfig.intermedialNodeFormat, lastForest, len(lastForest)))))
 //@   ensures dryfs [C09]: fsOps == old(fsOps) && fsFailed == old(fsFailed)
 //@ applies fromMarkdownOutput to gtree.OutputFromMarkdown, gtree.Output
 
 //@ contract fromMarkdownWalk
 //@   param callback follows walkCallback
 //@   requires live: !cbFailed
-//@   modifies Node.children, Node.parent, Node.brnch.value, Node.brnch.path, list.List.view, list.Element.backOf, counter.n, bufio.Scanner.pos, bufio.Scanner.failed, markdown.Parser.isSharpRoot, markdown.Parser.spaces, markdown.Parser.sep, cbTrace, cbFailed, cbLastErr
-//@   ensures walk [C05,C03,C12]: exists c *config :: {c.massive} fresh(c) && (!c.massive ==> (result == nil ==> !cbFailed && (exists rs []*Node :: allRoots(rs) && cbTrace == old(cbTrace) ++ specPreorderAll(rs, len(rs)))) && (cbFailed ==> result == cbLastErr && result != nil))
+//@   modifies Node.children, Node.parent, Node.brnch.value, Node.brnch.path, list.List.view, list.Element.backOf, counter.n, bufio.Scanner.pos, bufio.Scanner.failed, markdown.Parser.isSharpRoot, markdown.Parser.spaces, markdown.Parser.sep, cbTrace, cbFailed, cbLastErr, lastConfig, lastForest
+//@   ghostset lastConfig := cfg
+//@   ensures walk [C05,C03,C12]: fresh(lastConfig) && (!lastConfig.massive ==> (result == nil ==> !cbFailed && (allRoots(lastForest) && cbTrace == old(cbTrace) ++ specPreorderAll(lastForest, len(lastForest)))) && (cbFailed ==> result == cbLastErr && result != nil))
 //@ applies fromMarkdownWalk to gtree.WalkFromMarkdown, gtree.Walk
 
 // ---------------------------------------------------------------------------------------------
@@ -979,9 +989,10 @@ func fsExistsAt(p string) bool { _, err := os.Stat(p); return !os.IsNotExist(err
 
 //@ func gtree.treeSimple.mkdir
 //@   requires ok: simpleTreeOK(t, cfg)
-//@   modifies Node.children, Node.parent, Node.brnch.value, Node.brnch.path, list.List.view, list.Element.backOf, counter.n, bufio.Scanner.pos, bufio.Scanner.failed, markdown.Parser.isSharpRoot, markdown.Parser.spaces, markdown.Parser.sep, fsOps, fsFailed, defaultGrowerSimple.enabledValidation
-//@   ensures ops [C06]: cfg.encode == encodeDefault && result == nil ==> (exists rs []*Node :: {witness(roots)} allRoots(rs) && !specAnyRootExists(as(t.mkdirer, defaultMkdirerSimple).targetDir, rs, 0) && fsOps == old(fsOps) ++ specMkOpsAll(as(t.mkdirer, defaultMkdirerSimple).targetDir, cfg.fileExtensions, rs, len(rs)) && fsFailed == old(fsFailed))
-//@   ensures validated [C07]: cfg.encode == encodeDefault && fsOps != old(fsOps) ==> (exists rs []*Node :: {witness(roots)} allRootsT(rs) && (forall k int :: {rs[k]} 0 <= k && k < len(rs) ==> validated(rs[k])))
+//@   modifies Node.children, Node.parent, Node.brnch.value, Node.brnch.path, list.List.view, list.Element.backOf, counter.n, bufio.Scanner.pos, bufio.Scanner.failed, markdown.Parser.isSharpRoot, markdown.Parser.spaces, markdown.Parser.sep, fsOps, fsFailed, defaultGrowerSimple.enabledValidation, lastForest
+//@   ghostset lastForest := roots
+//@   ensures ops [C06]: cfg.encode == encodeDefault && result == nil ==> (allRoots(lastForest) && !specAnyRootExists(as(t.mkdirer, defaultMkdirerSimple).targetDir, lastForest, 0) && fsOps == old(fsOps) ++ specMkOpsAll(as(t.mkdirer, defaultMkdirerSimple).targetDir, cfg.fileExtensions, lastForest, len(lastForest)) && fsFailed == old(fsFailed))
+//@   ensures validated [C07]: cfg.encode == encodeDefault && fsOps != old(fsOps) ==> ((forall k int :: {lastForest[k]} 0 <= k && k < len(lastForest) ==> validated(lastForest[k])))
 //@   ensures failed [C06]: result == nil ==> fsFailed == old(fsFailed)
 //@   ensures dryrun [C09]: cfg.dryrun ==> fsOps == old(fsOps)
 
@@ -997,24 +1008,26 @@ func fsExistsAt(p string) bool { _, err := os.Stat(p); return !os.IsNotExist(err
 
 //@ func gtree.treePipeline.mkdir
 //@   assumed
-//@   modifies Node.children, Node.parent, Node.brnch.value, Node.brnch.path, list.List.view, list.Element.backOf, counter.n, bufio.Scanner.pos, bufio.Scanner.failed, markdown.Parser.isSharpRoot, markdown.Parser.spaces, markdown.Parser.sep, fsOps, fsFailed, defaultGrowerSimple.enabledValidation
+//@   modifies Node.children, Node.parent, Node.brnch.value, Node.brnch.path, list.List.view, list.Element.backOf, counter.n, bufio.Scanner.pos, bufio.Scanner.failed, markdown.Parser.isSharpRoot, markdown.Parser.spaces, markdown.Parser.sep, fsOps, fsFailed, defaultGrowerSimple.enabledValidation, lastForest
 //@ func gtree.treePipeline.mkdirProgrammably
 //@   assumed
 //@   modifies Node.brnch.value, Node.brnch.path, fsOps, fsFailed, defaultGrowerSimple.enabledValidation, out, wfail, counter.n
 
 //@ contract fromMarkdownMkdir
-//@   modifies Node.children, Node.parent, Node.brnch.value, Node.brnch.path, list.List.view, list.Element.backOf, counter.n, bufio.Scanner.pos, bufio.Scanner.failed, markdown.Parser.isSharpRoot, markdown.Parser.spaces, markdown.Parser.sep, fsOps, fsFailed, defaultGrowerSimple.enabledValidation, libFailed, libCalls
+//@   modifies Node.children, Node.parent, Node.brnch.value, Node.brnch.path, list.List.view, list.Element.backOf, counter.n, bufio.Scanner.pos, bufio.Scanner.failed, markdown.Parser.isSharpRoot, markdown.Parser.spaces, markdown.Parser.sep, fsOps, fsFailed, defaultGrowerSimple.enabledValidation, libFailed, libCalls, lastConfig, lastForest
+//@   ghostset lastConfig := cfg
 //@   ghostset libFailed := old(libFailed) || result != nil
 //@   ghostset libCalls := old(libCalls) + 1
-//@   ensures mkdir [C06,C12]: exists c *config :: {witness(cfg)} fresh(c) && (!c.massive && c.encode == encodeDefault && result == nil ==> fsFailed == old(fsFailed) && (exists rs []*Node :: {specMkOpsAll((len(c.targetDir) != 0 ? c.targetDir : "."), c.fileExtensions, rs, len(rs))} allRoots(rs) && !specAnyRootExists((len(c.targetDir) != 0 ? c.targetDir : "."), rs, 0) && fsOps == old(fsOps) ++ specMkOpsAll((len(c.targetDir) != 0 ? c.targetDir : "."), c.fileExtensions, rs, len(rs))))
-//@   ensures validated [C07,C12]: exists c *config :: {witness(cfg)} fresh(c) && (!c.massive && c.encode == encodeDefault && fsOps != old(fsOps) ==> (exists rs []*Node :: {allRootsT(rs)} allRootsT(rs) && (forall k int :: {rs[k]} 0 <= k && k < len(rs) ==> validated(rs[k]))))
+//@   ensures mkdir [C06,C12]: fresh(lastConfig) && (!lastConfig.massive && lastConfig.encode == encodeDefault && result == nil ==> fsFailed == old(fsFailed) && (allRoots(lastForest) && !specAnyRootExists((len(lastConfig.targetDir) != 0 ? lastConfig.targetDir : "."), lastForest, 0) && fsOps == old(fsOps) ++ specMkOpsAll((len(lastConfig.targetDir) != 0 ? lastConfig.targetDir : "."), lastConfig.fileExtensions, lastForest, len(lastForest))))
+//@   ensures validated [C07,C12]: fresh(lastConfig) && (!lastConfig.massive && lastConfig.encode == encodeDefault && fsOps != old(fsOps) ==> ((forall k int :: {lastForest[k]} 0 <= k && k < len(lastForest) ==> validated(lastForest[k]))))
 //@ applies fromMarkdownMkdir to gtree.MkdirFromMarkdown, gtree.Mkdir
 
 //@ contract fromRootMkdir
-//@   modifies Node.brnch.value, Node.brnch.path, fsOps, fsFailed, defaultGrowerSimple.enabledValidation, out, wfail, counter.n
+//@   modifies Node.brnch.value, Node.brnch.path, fsOps, fsFailed, defaultGrowerSimple.enabledValidation, out, wfail, counter.n, lastConfig
+//@   ghostset lastConfig := cfg
 //@   ensures nilnode [C03]: root == nil ==> result == ErrNilNode && fsOps == old(fsOps)
 //@   ensures notroot [C03]: root != nil && root.hierarchy != 1 ==> result == ErrNotRoot && fsOps == old(fsOps)
-//@   ensures mkdir [C03,C06,C07,C09,C12]: root != nil && root.hierarchy == 1 ==> (exists c *config :: {c.massive} fresh(c) && (!c.massive && c.encode == encodeDefault ==> (c.dryrun ==> fsOps == old(fsOps) && fsFailed == old(fsFailed)) && (!c.dryrun && result == nil ==> fsFailed == old(fsFailed) && !fsExistsAt(fpJoin2((len(c.targetDir) != 0 ? c.targetDir : "."), root.name)) && fsOps == old(fsOps) ++ specMkOps((len(c.targetDir) != 0 ? c.targetDir : "."), c.fileExtensions, root)) && (fsOps != old(fsOps) ==> validated(root))))
+//@   ensures mkdir [C03,C06,C07,C09,C12]: root != nil && root.hierarchy == 1 ==> (fresh(lastConfig) && (!lastConfig.massive && lastConfig.encode == encodeDefault ==> (lastConfig.dryrun ==> fsOps == old(fsOps) && fsFailed == old(fsFailed)) && (!lastConfig.dryrun && result == nil ==> fsFailed == old(fsFailed) && !fsExistsAt(fpJoin2((len(lastConfig.targetDir) != 0 ? lastConfig.targetDir : "."), root.name)) && fsOps == old(fsOps) ++ specMkOps((len(lastConfig.targetDir) != 0 ? lastConfig.targetDir : "."), lastConfig.fileExtensions, root)) && (fsOps != old(fsOps) ==> validated(root))))
 //@ applies fromRootMkdir to gtree.MkdirFromRoot, gtree.MkdirProgrammably
 
 // ---------------------------------------------------------------------------------------------
@@ -1082,8 +1095,9 @@ func specPathInKids(target string, n *Node, x string, i int) bool {
 
 //@ func gtree.treeSimple.verify
 //@   requires ok: simpleTreeOK(t, cfg)
-//@   modifies Node.children, Node.parent, Node.brnch.value, Node.brnch.path, list.List.view, list.Element.backOf, counter.n, bufio.Scanner.pos, bufio.Scanner.failed, markdown.Parser.isSharpRoot, markdown.Parser.spaces, markdown.Parser.sep, defaultGrowerSimple.enabledValidation, maps
-//@   ensures ok [C08]: cfg.encode == encodeDefault && result == nil ==> (exists rs []*Node :: {witness(roots)} allRootsT(rs) && allRoots(rs) && (forall k int :: {rs[k]} 0 <= k && k < len(rs) ==> validated(rs[k]) && rootMatches(as(t.verifier, defaultVerifierSimple), rs[k])))
+//@   modifies Node.children, Node.parent, Node.brnch.value, Node.brnch.path, list.List.view, list.Element.backOf, counter.n, bufio.Scanner.pos, bufio.Scanner.failed, markdown.Parser.isSharpRoot, markdown.Parser.spaces, markdown.Parser.sep, defaultGrowerSimple.enabledValidation, maps, lastForest
+//@   ghostset lastForest := roots
+//@   ensures ok [C08]: cfg.encode == encodeDefault && result == nil ==> (allRoots(lastForest) && (forall k int :: {lastForest[k]} 0 <= k && k < len(lastForest) ==> validated(lastForest[k]) && rootMatches(as(t.verifier, defaultVerifierSimple), lastForest[k])))
 //@   ensures fsframe [C08]: fsOps == old(fsOps) && fsFailed == old(fsFailed)
 
 //@ func gtree.treeSimple.verifyProgrammably
@@ -1094,13 +1108,14 @@ func specPathInKids(target string, n *Node, x string, i int) bool {
 
 //@ func gtree.treePipeline.verify
 //@   assumed
-//@   modifies Node.children, Node.parent, Node.brnch.value, Node.brnch.path, list.List.view, list.Element.backOf, counter.n, bufio.Scanner.pos, bufio.Scanner.failed, markdown.Parser.isSharpRoot, markdown.Parser.spaces, markdown.Parser.sep, defaultGrowerSimple.enabledValidation, maps
+//@   modifies Node.children, Node.parent, Node.brnch.value, Node.brnch.path, list.List.view, list.Element.backOf, counter.n, bufio.Scanner.pos, bufio.Scanner.failed, markdown.Parser.isSharpRoot, markdown.Parser.spaces, markdown.Parser.sep, defaultGrowerSimple.enabledValidation, maps, lastForest
 //@ func gtree.treePipeline.verifyProgrammably
 //@   assumed
 //@   modifies Node.brnch.value, Node.brnch.path, defaultGrowerSimple.enabledValidation, maps
 
 //@ contract fromMarkdownVerify
-//@   modifies Node.children, Node.parent, Node.brnch.value, Node.brnch.path, list.List.view, list.Element.backOf, counter.n, bufio.Scanner.pos, bufio.Scanner.failed, markdown.Parser.isSharpRoot, markdown.Parser.spaces, markdown.Parser.sep, defaultGrowerSimple.enabledValidation, maps, libFailed, libCalls
+//@   modifies Node.children, Node.parent, Node.brnch.value, Node.brnch.path, list.List.view, list.Element.backOf, counter.n, bufio.Scanner.pos, bufio.Scanner.failed, markdown.Parser.isSharpRoot, markdown.Parser.spaces, markdown.Parser.sep, defaultGrowerSimple.enabledValidation, maps, libFailed, libCalls, lastConfig, lastForest
+//@   ghostset lastConfig := cfg
 //@   ghostset libFailed := old(libFailed) || result != nil
 //@   ghostset libCalls := old(libCalls) + 1
 //@   ensures fsframe [C08,C12]: fsOps == old(fsOps) && fsFailed == old(fsFailed)
